@@ -91,6 +91,49 @@ LawMergePoint(a, b, sn, sd) ==
                       /\ PtEq(BoundaryAt(m.c, m.l, sn, sd), BoundaryAt(b.c, b.l, sn - sd * la, sd))
                       /\ PtEq(BoundaryAt(m.c, m.r, sn, sd), BoundaryAt(b.c, b.r, sn - sd * la, sd))
 
+(* ------------------------------ (2b) histories -------------------------------------- *)
+(* "Every lanelet" includes a lanelet that was queried and then changed through the public API.  The mutations *)
+(* of the model (tokens; the driver's table in crv/props/c20.py gives them the same meaning):                  *)
+(*   mv1 / mv3  Lanelet.translate_rotate: lattice translation, then a quarter turn (exact on the lattice)      *)
+(*   net2       LaneletNetwork.translate_rotate on a network that contains the lanelet                         *)
+(*   setc / setl / setr   assign a new polyline through the center / left / right vertices setter               *)
+(*   mrgf / mrgs          merge with a successor that starts where the lane ends (predecessor / successor first)*)
+(* After any history the answers must be those of the lane's CURRENT polylines: the cumulative distance and     *)
+(* PointAt are functions of the current vertices only.                                                         *)
+Rot(v, q) == CASE q = 0 -> v  [] q = 1 -> <<-v[2], v[1]>>  [] q = 2 -> <<-v[1], -v[2]>>  [] q = 3 -> <<v[2], -v[1]>>
+MovePt(v, t, q)   == Rot(<<v[1] + t[1], v[2] + t[2]>>, q)               \* first translate, then rotate
+MovePoly(P, t, q) == [i \in 1..Len(P) |-> MovePt(P[i], t, q)]
+MoveLane(a, t, q) == [l |-> MovePoly(a.l, t, q), c |-> MovePoly(a.c, t, q), r |-> MovePoly(a.r, t, q)]
+MoveOf(tok) == CASE tok = "mv1"  -> [t |-> <<1, 2>>,  q |-> 1]
+                 [] tok = "mv3"  -> [t |-> <<-3, 1>>, q |-> 3]
+                 [] tok = "net2" -> [t |-> <<2, -1>>, q |-> 2]
+MoveToks  == {"mv1", "mv3", "net2"}
+SetToks   == {"setc", "setl", "setr"}
+MergeToks == {"mrgf", "mrgs"}
+MutToks   == MoveToks \cup SetToks \cup MergeToks
+QueryToks == {"qd", "qi", "qall"}         \* distance only / one interpolate_position / the full query set
+(* the polyline the setters assign: the old one stretched by 2 about its first vertex (all arc lengths change) *)
+Stretch(P) == [i \in 1..Len(P) |-> <<2 * P[i][1] - P[1][1], 2 * P[i][2] - P[1][2]>>]
+(* the successor used by the merge tokens: every polyline continues from its last vertex with the same steps *)
+Continue(P) == LET e == Last(P) IN <<e, <<e[1] + 3, e[2] + 4>>, <<e[1] + 3, e[2] + 6>> >>
+SuccLane(a) == [l |-> Continue(a.l), c |-> Continue(a.c), r |-> Continue(a.r)]
+Apply(tok, a) == CASE tok \in MoveToks  -> MoveLane(a, MoveOf(tok).t, MoveOf(tok).q)
+                   [] tok = "setc"       -> [a EXCEPT !.c = Stretch(a.c)]
+                   [] tok = "setl"       -> [a EXCEPT !.l = Stretch(a.l)]
+                   [] tok = "setr"       -> [a EXCEPT !.r = Stretch(a.r)]
+                   [] tok \in MergeToks -> Merge(a, SuccLane(a))
+(* a rigid lattice motion keeps every cumulative distance and moves every interpolated point with the lane *)
+MoveRat(P, t, q) == LET d == P[1][2]                                     \* both coordinates share the denominator
+                        w == Rot(<<P[1][1] + t[1] * d, P[2][1] + t[2] * d>>, q)
+                    IN << <<w[1], d>>, <<w[2], d>> >>
+LawRigidCum(a, tok) == LET b == Apply(tok, a) IN WellFormed(b.c) /\ Cum(b.c) = Cum(a.c)
+LawRigid(a, tok, sn, sd) ==
+  LET b == Apply(tok, a)  m == MoveOf(tok) IN
+  /\ LawRigidCum(a, tok)
+  /\ PtEq(PointAt(b.c, sn, sd), MoveRat(PointAt(a.c, sn, sd), m.t, m.q))
+  /\ PtEq(BoundaryAt(b.c, b.l, sn, sd), MoveRat(BoundaryAt(a.c, a.l, sn, sd), m.t, m.q))
+  /\ PtEq(BoundaryAt(b.c, b.r, sn, sd), MoveRat(BoundaryAt(a.c, a.r, sn, sd), m.t, m.q))
+
 (* ------------------------------ (3) routes ----------------------------------------- *)
 (* G: function node -> set of successor nodes; len: node -> length; R: sequence of paths (sequences of nodes). *)
 (* The contract is a predicate on R, not one answer; duplicates and any order are allowed.                     *)
